@@ -163,9 +163,82 @@ class ReturnTemp(ast.NodeTransformer):
                 ast.copy_location(ast.Return(value=ast.Name(id="result__", ctx=ast.Load())), node)]
 
 
+class ThreeAddress(ast.NodeTransformer):
+    """Name the compound operands of calls and arithmetic:  f(g(x) + 1)  ->  t1 = g(x); t2 = t1 + 1; f(t2).
+    Evaluation order is kept (left to right, innermost first).  Nothing is extracted from lambdas, comprehensions,
+    conditional expressions, boolean operators, f-strings, decorators, default values, or assignment targets."""
+
+    def __init__(self):
+        self.n = 0
+
+    def _extract(self, expr, pre):
+        """returns a replacement for expr, appending temp assignments to pre"""
+        if isinstance(expr, (ast.Lambda, ast.ListComp, ast.SetComp, ast.DictComp, ast.GeneratorExp, ast.IfExp, ast.BoolOp,
+                             ast.JoinedStr, ast.NamedExpr, ast.Await, ast.Yield, ast.YieldFrom, ast.Starred)):
+            return expr
+        if isinstance(expr, ast.BinOp):
+            expr.left = self._operand(expr.left, pre)
+            expr.right = self._operand(expr.right, pre)
+        elif isinstance(expr, ast.UnaryOp):
+            expr.operand = self._operand(expr.operand, pre)
+        elif isinstance(expr, ast.Call):
+            if isinstance(expr.func, ast.Attribute):
+                expr.func.value = self._extract(expr.func.value, pre)
+            expr.args = [a if isinstance(a, ast.Starred) else self._operand(a, pre) for a in expr.args]
+            for k in expr.keywords:
+                if k.arg is not None:
+                    k.value = self._operand(k.value, pre)
+        elif isinstance(expr, ast.Subscript):
+            expr.value = self._extract(expr.value, pre)
+        elif isinstance(expr, ast.Attribute):
+            expr.value = self._extract(expr.value, pre)
+        elif isinstance(expr, (ast.Tuple, ast.List)):
+            expr.elts = [e if isinstance(e, ast.Starred) else self._extract(e, pre) for e in expr.elts]
+        return expr
+
+    def _operand(self, expr, pre):
+        expr = self._extract(expr, pre)
+        if isinstance(expr, (ast.BinOp, ast.Call)) :
+            self.n += 1
+            name = f"t__{self.n}"
+            pre.append(ast.Assign(targets=[ast.Name(id=name, ctx=ast.Store())], value=expr))
+            return ast.Name(id=name, ctx=ast.Load())
+        return expr
+
+    def _block(self, stmts):
+        out = []
+        for st in stmts:
+            pre = []
+            if isinstance(st, ast.Assign):
+                st.value = self._extract(st.value, pre)
+            elif isinstance(st, ast.AugAssign):
+                st.value = self._extract(st.value, pre)
+            elif isinstance(st, ast.Return) and st.value is not None:
+                st.value = self._extract(st.value, pre)
+            elif isinstance(st, ast.Expr):
+                st.value = self._extract(st.value, pre)
+            for fld in ("body", "orelse", "finalbody"):
+                sub = getattr(st, fld, None)
+                if isinstance(sub, list) and sub and isinstance(sub[0], ast.stmt) and not isinstance(st, ast.ClassDef):
+                    setattr(st, fld, self._block(sub))
+            for h in getattr(st, "handlers", []) or []:
+                h.body = self._block(h.body)
+            if isinstance(st, ast.ClassDef):
+                st.body = self._block(st.body)
+            for p_ in pre:
+                ast.copy_location(p_, st)
+            out.extend(pre)
+            out.append(st)
+        return out
+
+    def visit_Module(self, node):
+        node.body = self._block(node.body)
+        return node
+
+
 def transform_module(src: str, kind: str) -> str:
     tree = ast.parse(src)
-    tr = {"commute": CommuteConst, "augassign": AugToAssign, "rettemp": ReturnTemp}[kind]()
+    tr = {"commute": CommuteConst, "augassign": AugToAssign, "rettemp": ReturnTemp, "threeaddr": ThreeAddress}[kind]()
     tree = tr.visit(tree)
     ast.fix_missing_locations(tree)
     return ast.unparse(tree) + "\n"
@@ -180,7 +253,7 @@ def overlays(kind: str):
             new = ast.unparse(ast.parse(src)) + "\n"
         elif kind == "rename":
             new = rename_module(src)
-        elif kind in ("commute", "augassign", "rettemp"):
+        elif kind in ("commute", "augassign", "rettemp", "threeaddr"):
             new = transform_module(src, kind)
         else:
             new = rename_module(src)
@@ -209,8 +282,65 @@ def run_one(args):
         return pid, "crash", [traceback.format_exc(limit=3)[-300:].replace("\n", " | ")], 0
 
 
+def run_mutant_under(args):
+    """the self-test mutant applied first, then the behaviour-preserving transformation on top: is it still reported?"""
+    kind, pid, m = args
+    from afqmc_lint.model import AnalysisError
+    from afqmc_lint.runner import analyse, apply_mutant
+    try:
+        mov = apply_mutant(REPO, m)
+        if mov is None:
+            return pid, m["id"], "inapplicable", []
+        if kind not in _OV:
+            _OV[kind] = overlays(kind)
+        ov = dict(_OV[kind])
+        for rel, src in mov.items():
+            if not rel.startswith("ad_afqmc/") or rel.count("/") != 1:
+                ov[rel] = src
+                continue
+            if kind == "reformat":
+                ov[rel] = ast.unparse(ast.parse(src)) + "\n"
+            elif kind == "rename":
+                ov[rel] = rename_module(src)
+            else:
+                ov[rel] = transform_module(src, kind)
+        rep = analyse(pid, REPO, ov, "quick")
+        bad = [o.key() for o in rep.violations]
+        if m.get("expect_silent"):
+            return pid, m["id"], "ok" if not bad else "false-alarm", bad[:3]
+        return pid, m["id"], "ok" if bad else "missed", bad[:3]
+    except AnalysisError as e:
+        # refusing to decide is not a miss, but it is not a diagnosis either
+        return pid, m["id"], "analysis-error", [str(e)[:200]]
+    except Exception as e:  # noqa
+        import traceback
+        return pid, m["id"], "crash", [traceback.format_exc(limit=3)[-300:].replace("\n", " | ")]
+
+
+def mutants_under(kinds, pids):
+    from afqmc_lint.runner import load_mutants
+    rc = 0
+    for kind in kinds:
+        work = [(kind, p, m) for p in pids for m in load_mutants(p)]
+        with ProcessPoolExecutor(16) as ex:
+            res = list(ex.map(run_mutant_under, work, chunksize=4))
+        okn = sum(1 for r in res if r[2] in ("ok", "inapplicable"))
+        for pid, mid, verdict, detail in res:
+            if verdict not in ("ok", "inapplicable"):
+                rc = 1
+                print(f"[{kind}+mutant] {pid} {mid}: {verdict} {detail[:1]}")
+        print(f"[{kind}+mutant] {okn}/{len(res)} mutants keep their verdict under the transformation")
+    return rc
+
+
 def main():
-    ALL = ("reformat", "rename", "commute", "augassign", "rettemp")
+    if "--mutants" in sys.argv:
+        sys.argv.remove("--mutants")
+        ALL_ = ("reformat", "rename", "commute", "augassign", "rettemp", "threeaddr")
+        kinds = [a for a in sys.argv[1:] if a in ALL_] or list(ALL_)
+        pids = [a.upper() for a in sys.argv[1:] if a.upper().startswith("C") and a[1:].isdigit()] or [f"C{i:02d}" for i in range(1, 21)]
+        return mutants_under(kinds, pids)
+    ALL = ("reformat", "rename", "commute", "augassign", "rettemp", "threeaddr")
     kinds = [a for a in sys.argv[1:] if a in ALL] or list(ALL)
     pids = [a for a in sys.argv[1:] if a.upper().startswith("C") and a[1:].isdigit()] or [f"C{i:02d}" for i in range(1, 21)]
     rc = 0
